@@ -4,13 +4,17 @@ import valida.datapath
 
 
 def set_datum(data, data_path, datum):
+    """Set `datum` in-place at a concrete path, given as a concrete `DataPath` or as a
+    sequence of keys/indices."""
+    if isinstance(data_path, valida.datapath.DataPath):
+        keys = data_path.simplify()
+    else:
+        keys = tuple(data_path)
 
-    for part in data_path.parts[:-1]:
-        idx = part.condition.callable.kwargs["value"]
+    for idx in keys[:-1]:
         data = data[idx]
 
-    idx = data_path.parts[-1].condition.callable.kwargs["value"]
-    data[idx] = datum
+    data[keys[-1]] = datum
 
 
 class Data:
